@@ -107,10 +107,16 @@ pub fn panic_msg(e: &Box<dyn std::any::Any + Send>) -> String {
 /// killed by the kernel (exit 137, no verdict) under a seeded change. 2 GiB is far above anything a loader of these
 /// datasets needs (kilobytes), including the address space the allocator reserves per thread.
 pub fn cap_child_memory(cmd: &mut std::process::Command) {
+    cap_child_memory_gib(cmd, 2)
+}
+
+/// The same with a chosen cap (children that run an async runtime and the S3 client reserve far more address space
+/// per thread than they ever touch).
+pub fn cap_child_memory_gib(cmd: &mut std::process::Command, gib: u64) {
     use std::os::unix::process::CommandExt;
     unsafe {
-        cmd.pre_exec(|| {
-            let lim = libc::rlimit { rlim_cur: 2 << 30, rlim_max: 2 << 30 };
+        cmd.pre_exec(move || {
+            let lim = libc::rlimit { rlim_cur: gib << 30, rlim_max: gib << 30 };
             libc::setrlimit(libc::RLIMIT_AS, &lim);
             Ok(())
         });
